@@ -8,8 +8,8 @@ from . import core
 from .containers import RealContainers
 
 PROP = "C19"
-LEAN_TARGETS = ["Asynkit.Props.C19", "Asynkit.Lemmas.GenEq", "Asynkit.Lemmas.GenEqPosPQ"]
-PROPS_FILES = ["Asynkit/Props/C19.lean", "Asynkit/Lemmas/GenEq.lean", "Asynkit/Lemmas/GenEqPosPQ.lean"]
+LEAN_TARGETS = ["Asynkit.Props.C19", "Asynkit.Lemmas.GenEq", "Asynkit.Lemmas.GenEqPosPQ", "Asynkit.Lemmas.GenEqPQ"]
+PROPS_FILES = ["Asynkit/Props/C19.lean", "Asynkit/Lemmas/GenEq.lean", "Asynkit/Lemmas/GenEqPosPQ.lean", "Asynkit/Lemmas/GenEqPQ.lean"]
 DRIVERS = ["PQ"]
 TRUSTED = [
     "Lean 4.33 kernel; axioms ⊆ {propext, Classical.choice, Quot.sound} (audited per theorem each run)",
